@@ -431,7 +431,9 @@ CX2_SRC = (corpus.HEADER + "@constexpr\ndef kpack(xa, xb):\n    return xa * 1000
 FN_SRC = (corpus.HEADER + "def fa(xa):\n    return xa + 1\ndef fb(xa):\n    d3.Setting = xa\n    return fa(xa * 2)\n"
           "while True:\n    d1.Setting = fb(d0.Setting) + fb(2)\n    d2.Setting = LogicType.Temperature + Color.Red\n    yield_()\n")
 SESSION_POOL = {
-    "plain": {"text": corpus.HEADER + "d0.Setting = d1.Setting + 1\nd2.Mode = DisplayMode.Celsius\n", "dir": {}, "cx": False, "fmt": True},
+    "plain": {"text": corpus.HEADER + "d0.Setting = d1.Setting + 1\nd2.Mode = DisplayMode.Celsius\nd3.Setting = 1234567\n", "dir": {}, "cx": False, "fmt": True},
+    # a batch object with a user-supplied NUMERIC prefab hash (the number formatter keeps a process-wide table of known hashes)
+    "numhash": {"text": corpus.HEADER + "dev = Devices(1234567, 'name')\ndb.Setting = dev.Maximum.Temperature\nd0.Setting = PipeAnalysizers.Maximum.Temperature\n", "dir": {}, "cx": False, "fmt": True},
     "bighash": {"text": corpus.HEADER + 'd0.Setting = HASH("abc")\nd1.Setting = 123456\nd2.Setting = AdvancedFurnaces.Minimum.PrefabHash\n', "dir": {}, "cx": False, "fmt": True},
     "prcompact": {"text": "# pytrapic: compact\n" + corpus.HEADER + 'd0.Setting = HASH("abc")\nd1.Setting = LogicType.Pressure\n', "dir": {"compact": True}, "cx": False, "fmt": True},
     "prnoinline": {"text": "# pytrapic: no-inline-functions, remove-labels\n" + FN_SRC, "dir": {"inline_functions": False, "remove_labels": True}, "cx": False, "fmt": True},
